@@ -7,7 +7,7 @@ export GOFLAGS=-mod=mod GOPROXY=off GOSUMDB=off GOTOOLCHAIN=local; unset GOWORK
 edit="$1"; shift; shift
 d=$(mktemp -d /tmp/mut.XXXXXX)
 trap 'rm -rf "$d"' EXIT
-rsync -a --exclude .git /repo/ "$d/"
+rsync -a --exclude .git "${REPO_SRC:-/repo}/" "$d/"
 cat > "$d/.edit.py" <<'PY'
 import sys
 def sub(path, old, new, count=1):
@@ -19,5 +19,5 @@ PY
 if [ "$edit" = "-" ]; then cat >> "$d/.edit.py"; else cat "$edit" >> "$d/.edit.py"; fi
 (cd "$d" && python3 .edit.py) || { echo "EDIT FAILED"; exit 3; }
 (cd "$d" && go build ./... ) || { echo "BUILD FAILED"; exit 3; }
-/verif/bin/raftlint -repo "$d" -no-evidence "$@"
+"${RAFTLINT:-/verif/bin/raftlint}" -repo "$d" -no-evidence "$@"
 echo "exit=$?"
